@@ -305,45 +305,13 @@ Qed.
 Lemma zsort_sorted : forall l, StronglySorted Z.lt (zsort l).
 Proof. induction l; simpl; [constructor | apply zinsert_sorted; assumption]. Qed.
 
-(* ------------------------------------------------------------------ LookForRanges with one range condition per key *)
+(* ------------------------------------------------------------------ range conditions *)
 
 Definition is_range (c : cond) : bool := is_range_op (c_op c).
 Definition single (c : cond) : qrange := apply_cond c (empty_range (c_key c)).
 
 Lemma apply_cond_key : forall c r, r_key (apply_cond c r) = r_key r.
 Proof. intros c r. unfold apply_cond. destruct (c_op c); reflexivity. Qed.
-
-Lemma upd_range_fresh : forall c rs, (forall r, In r rs -> r_key r <> c_key c) ->
-  upd_range c rs = rs ++ [single c].
-Proof.
-  induction rs as [|r rs IH]; intro F; simpl; [reflexivity|].
-  destruct (String.eqb_spec (r_key r) (c_key c)) as [E|_]; [exfalso; exact (F r (or_introl eq_refl) E)|].
-  f_equal. apply IH. intros; apply F; right; assumption.
-Qed.
-
-Lemma lfr_gen : forall q rs,
-  NoDup (map c_key (filter is_range q)) ->
-  (forall r c, In r rs -> In c (filter is_range q) -> r_key r <> c_key c) ->
-  fold_left (fun rs c => if is_range_op (c_op c) then upd_range c rs else rs) q rs =
-  rs ++ map single (filter is_range q).
-Proof.
-  induction q as [|a q IH]; intros rs ND F; simpl; [rewrite app_nil_r; reflexivity|].
-  simpl in ND, F. unfold is_range in ND, F |- *. destruct (is_range_op (c_op a)) eqn:R.
-  - simpl in ND. inversion ND as [|? ? NI ND']; subst.
-    rewrite upd_range_fresh by (intros r I; apply (F r a I); left; reflexivity).
-    rewrite IH; [simpl; rewrite <- app_assoc; reflexivity | exact ND' |].
-    intros r c I J. apply in_app_iff in I as [I|[<-|[]]].
-    + apply (F r c I). right; exact J.
-    + unfold single. rewrite apply_cond_key. simpl. intro E. apply NI. rewrite E.
-      apply in_map. exact J.
-  - apply IH; auto.
-Qed.
-
-Lemma lfr_single : forall q, NoDup (map c_key (filter is_range q)) ->
-  look_for_ranges q = map single (filter is_range q).
-Proof.
-  intros q ND. unfold look_for_ranges. rewrite (lfr_gen q [] ND); [reflexivity | intros r c []].
-Qed.
 
 (* ------------------------------------------------------------------ one condition = one scan *)
 
@@ -630,72 +598,314 @@ Definition BConsistent (hist : list block) : Prop :=
   forall b1 b2, In b1 hist -> index_ok b1 = true -> In b2 hist -> index_ok b2 = true ->
     b_height b1 = b_height b2 -> blk_attrs b1 = blk_attrs b2.
 
-Definition one_range_per_key (q : query) : Prop := NoDup (map c_key (filter is_range q)).
-
 Lemma forall2_nil_r : forall (A B : Type) (P : A -> B -> Prop) l, Forall2 P l [] -> l = [].
 Proof. intros A B P l F. inversion F. reflexivity. Qed.
 
-(* C19_block_search_exact_partial.  FULL STATEMENT AIMED AT: as below, with one_range_per_key
-   relaxed to "at most one lower (> >=) and one upper (< <=) bound per key, both only on keys
-   that are single-valued in every indexed block" (there LookForRanges merges the two bounds
-   into one interval, which is then still the conjunction).
-   PROVED HERE: every history of Index calls (failed calls and consistent re-indexing
-   included), every query that is a non-empty conjunction of
+(* ------------------------------------------------------------------ LookForRanges in general *)
+
+Definition on_key (k : string) (c : cond) : bool := is_range c && String.eqb (c_key c) k.
+(* the range conditions on key k, in order *)
+Definition ck (q : query) (k : string) : list cond := filter (on_key k) q.
+(* the QueryRange LookForRanges builds for key k: every range condition on k applied in order *)
+Definition merged (q : query) (k : string) : qrange :=
+  fold_left (fun r c => apply_cond c r) (ck q k) (empty_range k).
+(* the keys with a range condition, in order of first appearance *)
+Definition range_keys (q : query) : list string := sdedup (map c_key (filter is_range q)).
+
+Lemma fold_apply_key : forall cs r, r_key (fold_left (fun r c => apply_cond c r) cs r) = r_key r.
+Proof. induction cs as [|c cs IH]; intro r; simpl; [reflexivity|]. rewrite IH. apply apply_cond_key. Qed.
+
+Lemma merged_key : forall q k, r_key (merged q k) = k.
+Proof. intros. unfold merged. rewrite fold_apply_key. reflexivity. Qed.
+
+Lemma sdedup_snoc : forall l k,
+  sdedup (l ++ [k]) = if smem k l then sdedup l else sdedup l ++ [k].
+Proof.
+  induction l as [|x l IH]; intro k; simpl; [reflexivity|]. rewrite IH.
+  destruct (String.eqb_spec k x) as [->|N]; simpl.
+  - destruct (smem x l); [reflexivity|]. rewrite filter_app. simpl. rewrite String.eqb_refl. simpl.
+    rewrite app_nil_r. reflexivity.
+  - destruct (smem k l); [reflexivity|]. rewrite filter_app. simpl.
+    destruct (String.eqb_spec k x); [contradiction|]. reflexivity.
+Qed.
+
+Lemma sdedup_nodup : forall l, NoDup (sdedup l).
+Proof.
+  induction l as [|x l IH]; simpl; constructor.
+  - intro I. apply filter_In in I as [_ I]. rewrite String.eqb_refl in I. discriminate.
+  - apply NoDup_filter. exact IH.
+Qed.
+
+Lemma upd_range_map : forall c (f : string -> qrange) keys,
+  (forall k, r_key (f k) = k) -> NoDup keys ->
+  upd_range c (map f keys) =
+  if smem (c_key c) keys
+  then map (fun k => if String.eqb k (c_key c) then apply_cond c (f k) else f k) keys
+  else map f keys ++ [apply_cond c (empty_range (c_key c))].
+Proof.
+  intros c f keys FK. induction keys as [|k0 keys IH]; intro ND; simpl; [reflexivity|].
+  inversion ND as [|? ? NI ND']; subst. rewrite FK.
+  destruct (String.eqb_spec k0 (c_key c)) as [E|N].
+  - subst k0. rewrite String.eqb_refl. simpl. f_equal. apply map_ext_in. intros k I.
+    destruct (String.eqb_spec k (c_key c)); [subst; contradiction | reflexivity].
+  - destruct (String.eqb_spec (c_key c) k0); [congruence|]. simpl. rewrite (IH ND').
+    destruct (smem (c_key c) keys); reflexivity.
+Qed.
+
+Lemma ck_none : forall q k, ~ In k (map c_key (filter is_range q)) -> ck q k = [].
+Proof.
+  induction q as [|c q IH]; intros k N; simpl; [reflexivity|]. unfold on_key at 1.
+  simpl in N. destruct (is_range c) eqn:R; simpl in *.
+  - destruct (String.eqb_spec (c_key c) k) as [E|_]; [exfalso; apply N; auto|]. apply IH. tauto.
+  - apply IH. exact N.
+Qed.
+
+Lemma merged_snoc : forall q c k,
+  merged (q ++ [c]) k = if on_key k c then apply_cond c (merged q k) else merged q k.
+Proof.
+  intros. unfold merged, ck. rewrite filter_app. simpl. destruct (on_key k c).
+  - rewrite fold_left_app. reflexivity.
+  - rewrite app_nil_r. reflexivity.
+Qed.
+
+Lemma lfr_char : forall q, look_for_ranges q = map (merged q) (range_keys q).
+Proof.
+  induction q as [|c q IH] using rev_ind; [reflexivity|].
+  unfold look_for_ranges in *. rewrite fold_left_app. simpl. rewrite IH. clear IH.
+  unfold range_keys. rewrite filter_app. simpl. fold (is_range c).
+  destruct (is_range c) eqn:R.
+  - rewrite map_app. simpl. rewrite sdedup_snoc.
+    rewrite (upd_range_map c (merged q)) by (apply merged_key || apply sdedup_nodup).
+    rewrite smem_sdedup. fold (range_keys q).
+    destruct (smem (c_key c) (map c_key (filter is_range q))) eqn:S.
+    + apply map_ext. intro k. rewrite merged_snoc. unfold on_key. rewrite R. simpl.
+      rewrite String.eqb_sym. reflexivity.
+    + rewrite map_app. simpl. f_equal.
+      * apply map_ext_in. intros k I. rewrite merged_snoc. unfold on_key. rewrite R. simpl.
+        destruct (String.eqb_spec (c_key c) k) as [E|_]; [|reflexivity].
+        exfalso. subst k. unfold range_keys in I. apply (proj1 (sdedup_In _ _)) in I.
+        apply (proj2 (smem_In _ _)) in I. congruence.
+      * rewrite merged_snoc. unfold on_key. rewrite R, String.eqb_refl. simpl. f_equal. f_equal.
+        unfold merged. rewrite ck_none; [reflexivity|]. intro I. apply (proj2 (smem_In _ _)) in I. congruence.
+  - rewrite app_nil_r. apply map_ext. intro k. rewrite merged_snoc. unfold on_key. rewrite R.
+    reflexivity.
+Qed.
+
+(* ------------------------------------------------------------------ the hits of a merged range *)
+
+Definition is_lower_op (o : opr) : bool := match o with OpGt | OpGe => true | _ => false end.
+
+(* every indexed block has at most one value under k *)
+Definition SingleValued (hist : list block) (k : string) : Prop :=
+  forall b, In b hist -> index_ok b = true -> (List.length (bvals k b) <= 1)%nat.
+
+(* the range conditions on one key are one condition, or a lower and an upper bound on a key
+   that is single-valued in every indexed block *)
+Definition RangeShape (hist : list block) (q : query) : Prop :=
+  forall k, In k (range_keys q) ->
+    (exists c, ck q k = [c]) \/
+    (exists c1 c2, ck q k = [c1; c2] /\
+       is_lower_op (c_op c1) = negb (is_lower_op (c_op c2)) /\ SingleValued hist k).
+
+Lemma brange_int_spec : forall hist st, BStoreOK hist st -> forall r lo hi,
+  lower_value r = Some lo -> upper_value r = Some hi -> is_bad lo = false -> is_bad hi = false ->
+  any_is_int r = true -> BNumKey hist (r_key r) ->
+  exists t, brange_hits st r = Some t /\
+    forall x, In x t <->
+      exists b, At hist x b /\
+        exists n, In (r_key r, dec n) (blk_attrs b) /\ lo_ok lo n && hi_ok hi n = true.
+Proof.
+  intros hist st OK r lo hi L H BL BH A NK. eexists.
+  split; [apply (brange_generic st r lo hi); auto|].
+  intro x. rewrite in_map_iff. split.
+  - intros [[n x'] [E I]]. simpl in E. subst x'. apply filter_In in I as [I F]. cbn [fst] in F.
+    apply (cands_spec hist st OK _ n x NK) in I as [b [B I]]. exists b. split; auto. exists n. auto.
+  - intros [b [B [n [I C]]]]. exists (n, x). split; [reflexivity|]. apply filter_In. split.
+    + apply (cands_spec hist st OK _ n x NK). eauto.
+    + exact C.
+Qed.
+
+Lemma two_bounds : forall k op1 z1 op2 z2,
+  is_range_op op1 = true -> is_range_op op2 = true ->
+  is_lower_op op1 = negb (is_lower_op op2) ->
+  let r := apply_cond {| c_key := k; c_op := op2; c_arg := OInt z2 |}
+             (apply_cond {| c_key := k; c_op := op1; c_arg := OInt z1 |} (empty_range k)) in
+  exists lo hi, lower_value r = Some lo /\ upper_value r = Some hi /\
+    is_bad lo = false /\ is_bad hi = false /\ any_is_int r = true /\
+    forall n, lo_ok lo n && hi_ok hi n = cmp_ok op1 n z1 && cmp_ok op2 n z2.
+Proof.
+  intros k op1 z1 op2 z2 R1 R2 LU.
+  destruct op1; try discriminate R1; destruct op2; try discriminate R2; simpl in LU;
+    try discriminate LU;
+    cbv zeta; (eexists; eexists; split; [reflexivity|]; split; [reflexivity|];
+    split; [reflexivity|]; split; [reflexivity|]; split; [reflexivity|]);
+    intro n; unfold cmp_ok, lo_ok, hi_ok; simpl; rewrite ?Z.gtb_ltb, ?Z.geb_leb;
+    repeat match goal with
+           | |- context [Z.leb ?a ?b] => destruct (Z.leb_spec a b)
+           | |- context [Z.ltb ?a ?b] => destruct (Z.ltb_spec a b)
+           end; simpl; try reflexivity; lia.
+Qed.
+
+
+Lemma wf_range_arg : forall hist c, bwf_cond hist c -> is_range c = true ->
+  exists z, c_arg c = OInt z /\ BNumKey hist (c_key c) /\ c_op c <> OpExists.
+Proof.
+  intros hist [k op arg] W R. unfold bwf_cond in W. unfold is_range in R. simpl in *.
+  destruct op; try discriminate R; destruct arg; try contradiction; eexists; repeat split; eauto;
+    discriminate.
+Qed.
+
+Lemma single_valued_eq : forall k (l : list (string * string)) v1 v2,
+  (List.length (vals_of k l) <= 1)%nat -> In (k, v1) l -> In (k, v2) l -> v1 = v2.
+Proof.
+  intros k l v1 v2 LE I1 I2. apply In_vals in I1. apply In_vals in I2.
+  destruct (vals_of k l) as [|a [|b r]]; simpl in *; try lia; intuition congruence.
+Qed.
+
+Lemma merged_hits : forall hist st, BStoreOK hist st -> BConsistent hist -> forall q,
+  (forall c, In c q -> bwf_cond hist c) -> RangeShape hist q ->
+  forall k, In k (range_keys q) ->
+  exists t, brange_hits st (merged q k) = Some t /\
+    forall x, In x t <-> forall c, In c (ck q k) -> Sat hist c x.
+Proof.
+  intros hist st OK CONS q WF SH k IK.
+  assert (CK : forall c, In c (ck q k) -> In c q /\ is_range c = true /\ c_key c = k).
+  { intros c I. apply filter_In in I as [I O]. unfold on_key in O.
+    apply andb_true_iff in O as [O1 O2]. apply String.eqb_eq in O2. auto. }
+  destruct (SH k IK) as [[c E]|[c1 [c2 [E [LU SV]]]]].
+  - destruct (CK c) as [I [R K]]; [rewrite E; left; reflexivity|].
+    destruct (brange_hits_spec hist st OK c (WF c I) R) as [t [H S]].
+    exists t. split.
+    + unfold merged. rewrite E. simpl. unfold single in H. rewrite K in H. exact H.
+    + intro x. rewrite S, E. split; [intros A c' [<-|[]]; exact A | intro A; apply A; left; reflexivity].
+  - destruct (CK c1) as [I1 [R1 K1]]; [rewrite E; left; reflexivity|].
+    destruct (CK c2) as [I2 [R2 K2]]; [rewrite E; right; left; reflexivity|].
+    destruct (wf_range_arg hist c1 (WF c1 I1) R1) as [z1 [A1 [NK1 NE1]]].
+    destruct (wf_range_arg hist c2 (WF c2 I2) R2) as [z2 [A2 [NK2 NE2]]].
+    destruct c1 as [k1 op1 a1], c2 as [k2 op2 a2]. simpl in *. subst k1 k2 a1 a2.
+    destruct (two_bounds k op1 z1 op2 z2 R1 R2 LU) as [lo [hi [L [H [BL [BH [AI CMP]]]]]]].
+    cbv zeta in *.
+    assert (M : merged q k = apply_cond {| c_key := k; c_op := op2; c_arg := OInt z2 |}
+                   (apply_cond {| c_key := k; c_op := op1; c_arg := OInt z1 |} (empty_range k)))
+      by (unfold merged; rewrite E; reflexivity).
+    rewrite <- M in *.
+    assert (NK : BNumKey hist (r_key (merged q k))) by (rewrite merged_key; exact NK1).
+    destruct (brange_int_spec hist st OK _ lo hi L H BL BH AI NK) as [t [HT S]].
+    exists t. split; [exact HT|]. intro x. rewrite S, merged_key, E. split.
+    + intros [b [B [n [I C]]]] c [<-|[<-|[]]];
+        apply (sat_int hist); auto; exists b; split; auto; exists n; split; auto;
+        rewrite CMP in C; apply andb_true_iff in C; tauto.
+    + intro A.
+      pose proof (A _ (or_introl eq_refl)) as S1. pose proof (A _ (or_intror (or_introl eq_refl))) as S2.
+      apply (sat_int hist) in S1; auto. apply (sat_int hist) in S2; auto.
+      destruct S1 as [b1 [B1 [n1 [J1 C1]]]]. destruct S2 as [b2 [B2 [n2 [J2 C2]]]].
+      assert (EQ : blk_attrs b1 = blk_attrs b2).
+      { destruct B1 as [X1 [X2 X3]], B2 as [Y1 [Y2 Y3]]. apply CONS; auto. congruence. }
+      rewrite <- EQ in J2.
+      assert (n1 = n2).
+      { apply dec_inj. destruct B1 as [X1 [X2 _]].
+        apply (single_valued_eq k (blk_attrs b1)); auto. apply (SV b1 X1 X2). }
+      subst n2. exists b1. split; auto. exists n1. split; auto. rewrite CMP, C1, C2. reflexivity.
+Qed.
+
+(* C19_block_search_exact_partial.  PROVED HERE: every history of Index calls (failed calls and
+   consistent re-indexing included), every query that is a non-empty conjunction, in any order
+   and number, of
      key = 'string'   key CONTAINS 'string'   (key an application key)
      key EXISTS (dotted key, block.height included)
-     key = integer   key < <= > >= integer   (block.height included; at most one range
-                                              condition per key)
-   in any order: the two loops of Search (ranges first, first-run / empty-set short-cuts), the
-   primary-key scan for block.height = H (F47), Has-filter and sort included.
-   MISSING: two-sided ranges on one key (monitored and differentially tested only), and the
-   lemma that [dec z] is NumOK for every 0 <= z <= MaxInt64 (NumOK is a premise on the values
-   integer conditions are compared with, heights included). *)
+     key = integer   key < <= > >= integer   (block.height included)
+   where the range conditions on one key are one condition, or one lower and one upper bound
+   on a key that is single-valued in every indexed block (RangeShape: there LookForRanges
+   merges the bounds into one interval that still is their conjunction): LookForRanges for
+   arbitrary queries (lfr_char), the two loops of Search (ranges first, first-run / empty-set
+   short-cuts), the primary-key scan for block.height = H (F47), Has-filter and sort included.
+   The excluded queries are the decidable known classes 25, 34, 36, 37, 38, plus integer
+   conditions on keys that carry digit-free values (matcher and indexer both find nothing there;
+   monitored by the harness only).
+   PARTIAL because of ONE missing lemma: that [dec z] is NumOK (matcher and strconv.ParseInt
+   both read z back) for every 0 <= z <= MaxInt64.  Without it, "the indexed values under the
+   keys of integer conditions are canonical decimals" stays the semantic premise BNumKey (on
+   heights too) instead of a syntactic one; the harness checks it on every generated value
+   (observable 42 and the model comparison 41). *)
 Theorem C19_block_search_exact_partial : forall (hist : list block) (q : query),
   BConsistent hist ->
   q <> [] ->
   (forall c, In c q -> bwf_cond hist c) ->
-  one_range_per_key q ->
+  RangeShape hist q ->
   exists hs, bsearch (brun hist) q = BOk hs /\ StronglySorted Z.lt hs /\
     forall h, In h hs <->
       exists b, In b hist /\ index_ok b = true /\ b_height b = h /\
                 matches q (blk_events b) = MTrue.
 Proof.
-  intros hist q CONS NE WF ONE. set (st := brun hist).
+  intros hist q CONS NE WF SH. set (st := brun hist).
   assert (OK : BStoreOK hist st) by apply brun_ok.
-  set (rq := filter is_range q).
+  set (ks := range_keys q).
   set (oq := filter (fun c => negb (is_range_op (c_op c))) q).
-  assert (PART : forall c, In c q <-> In c (rq ++ oq)).
-  { intro c. unfold rq, oq, is_range. rewrite in_app_iff, !filter_In.
-    destruct (is_range_op (c_op c)); simpl; intuition discriminate. }
-  destruct (map_some _ (fun c => brange_hits st (single c))
-                     (fun c t => forall x, In x t <-> Sat hist c x) rq) as [ts1 [E1 F1]].
-  { intros c I. apply filter_In in I as [I R]. apply (brange_hits_spec hist st OK c); auto. }
+  destruct (map_some _ (fun k => brange_hits st (merged q k))
+                     (fun k t => forall x, In x t <-> forall c, In c (ck q k) -> Sat hist c x) ks)
+    as [ts1 [E1 F1]].
+  { intros k I. apply (merged_hits hist st OK CONS q WF SH k I). }
   destruct (map_some _ (bcond_hits st)
                      (fun c t => forall x, In x t <-> Sat hist c x) oq) as [ts2 [E2 F2]].
   { intros c I. apply filter_In in I as [I R]. apply (bcond_hits_spec hist st OK c); auto.
     unfold is_range. apply negb_true_iff. exact R. }
-  assert (F : Forall2 (fun c t => forall x, In x t <-> Sat hist c x) (rq ++ oq) (ts1 ++ ts2))
-    by (apply Forall2_app; assumption).
+  (* every condition of q is a range condition on a key of ks, or in oq *)
+  assert (RALL : forall x, (forall k, In k ks -> forall c, In c (ck q k) -> Sat hist c x) <->
+                           (forall c, In c q -> is_range c = true -> Sat hist c x)).
+  { intro x. split.
+    - intros A c I R. apply (A (c_key c)).
+      + unfold ks, range_keys. apply sdedup_In, in_map, filter_In. auto.
+      + apply filter_In. split; auto. unfold on_key. rewrite R, String.eqb_refl. reflexivity.
+    - intros A k _ c I. apply filter_In in I as [I O]. unfold on_key in O.
+      apply andb_true_iff in O as [O _]. auto. }
+  assert (OALL : forall x, (forall c, In c oq -> Sat hist c x) <->
+                           (forall c, In c q -> is_range c = false -> Sat hist c x)).
+  { intro x. unfold oq, is_range. split.
+    - intros A c I R. apply A. apply filter_In. rewrite R. auto.
+    - intros A c I. apply filter_In in I as [I R]. apply negb_true_iff in R. auto. }
   assert (NN : ts1 ++ ts2 <> []).
-  { intro X. rewrite X in F. apply forall2_nil_r in F. destruct q as [|c q']; [contradiction|].
-    assert (I : In c (rq ++ oq)) by (apply PART; left; reflexivity). rewrite F in I. destruct I. }
+  { intro X. apply app_eq_nil in X as [X1 X2]. rewrite X1 in F1. rewrite X2 in F2.
+    apply forall2_nil_r in F1. apply forall2_nil_r in F2.
+    destruct q as [|c q']; [contradiction|]. destruct (is_range c) eqn:R.
+    - assert (I : In (c_key c) ks).
+      { unfold ks, range_keys. apply sdedup_In, in_map, filter_In. simpl; auto. }
+      rewrite F1 in I. destruct I.
+    - assert (I : In c oq).
+      { unfold oq. apply filter_In. unfold is_range in R. rewrite R. simpl; auto. }
+      rewrite F2 in I. destruct I. }
   destruct (bsteps_false (ts1 ++ ts2) NN) as [f' [R S]].
   rewrite map_app, bsteps_app in R.
-  unfold bsearch. fold st. rewrite (lfr_single q ONE). fold rq. rewrite map_map, E1. fold oq. rewrite E2.
+  unfold bsearch. fold st. rewrite (lfr_char q). fold ks. rewrite map_map, E1. fold oq. rewrite E2.
   destruct (brun_steps (map Some ts1) false []) as [[i1 f1]|]; [|discriminate R]. rewrite R.
   eexists. split; [reflexivity|]. split; [apply zsort_sorted|].
-  intro h. rewrite zsort_in, filter_In, S, (forall2_all _ (Sat hist) _ _ h F). split.
+  intro h. rewrite zsort_in, filter_In, S.
+  assert (ALL : (forall t, In t (ts1 ++ ts2) -> In h t) <-> (forall c, In c q -> Sat hist c h)).
+  { split.
+    - intros A c I. destruct (is_range c) eqn:RC.
+      + apply (proj1 (RALL h)); auto.
+        apply (proj1 (forall2_all _ (fun k x => forall c, In c (ck q k) -> Sat hist c x) _ _ h F1)).
+        intros t J. apply A, in_app_iff. auto.
+      + apply (proj1 (OALL h)); auto.
+        apply (proj1 (forall2_all _ (Sat hist) _ _ h F2)).
+        intros t J. apply A, in_app_iff. auto.
+    - intros A t J. apply in_app_iff in J as [J|J].
+      + revert t J.
+        apply (proj2 (forall2_all _ (fun k x => forall c, In c (ck q k) -> Sat hist c x) _ _ h F1)).
+        apply (proj2 (RALL h)). auto.
+      + revert t J. apply (proj2 (forall2_all _ (Sat hist) _ _ h F2)).
+        apply (proj2 (OALL h)). auto. }
+  rewrite ALL. split.
   - intros [A _]. destruct q as [|c0 q'] eqn:Q; [contradiction|]. rewrite <- Q in *.
     assert (I0 : In c0 q) by (rewrite Q; left; reflexivity).
-    destruct (A c0 (proj1 (PART c0) I0)) as [b0 [[B1 [B2 B3]] _]].
+    destruct (A c0 I0) as [b0 [[B1 [B2 B3]] _]].
     exists b0. repeat split; auto.
     rewrite matches_nonnil by apply blk_events_nonnil. apply match_conds_all. intros c I.
-    destruct (A c (proj1 (PART c) I)) as [b [[C1 [C2 C3]] M]].
+    destruct (A c I) as [b [[C1 [C2 C3]] M]].
     unfold blk_events in *. rewrite (CONS b0 b B1 B2 C1 C2) by congruence. exact M.
   - intros [b [B1 [B2 [B3 M]]]]. split.
     + intros c I. exists b. split; [unfold At; auto|].
       rewrite matches_nonnil in M by apply blk_events_nonnil.
-      apply (proj1 (match_conds_all q (blk_events b)) M). apply PART. exact I.
+      apply (proj1 (match_conds_all q (blk_events b)) M). exact I.
     + apply (bhas_spec hist st h OK). exists b. auto.
 Qed.
 
@@ -723,7 +933,8 @@ Definition bnv_b4 := blk 4 [ev1 "a" [("y", "q")]] [ev1 "b" [("x", "9")]]%string.
 Definition bnv_hist : list block := [bnv_b1; bnv_b2; bnv_b3; bnv_b2; bnv_b4].
 Definition bnv_q : query :=
   [cnd "a.y" OpEq (OStr "p"); cnd "b.x" OpGt (OInt 5); cnd "block.height" OpLe (OInt 3);
-   cnd "a.y" OpContains (OStr "q"); cnd "b.x" OpExists ONone; cnd "block.height" OpEq (OInt 1)]%string.
+   cnd "a.y" OpContains (OStr "q"); cnd "b.x" OpExists ONone; cnd "block.height" OpEq (OInt 1);
+   cnd "b.x" OpLe (OInt 7)]%string.
 
 Example C19_block_indexed_once_nonvacuous :
   In (PK 2, 2) (brun bnv_hist) /\
@@ -741,7 +952,7 @@ Qed.
 
 Example C19_block_search_exact_nonvacuous :
   BConsistent bnv_hist /\ bnv_q <> [] /\
-  (forall c, In c bnv_q -> bwf_cond bnv_hist c) /\ one_range_per_key bnv_q /\
+  (forall c, In c bnv_q -> bwf_cond bnv_hist c) /\ RangeShape bnv_hist bnv_q /\
   bsearch (brun bnv_hist) bnv_q = BOk [1] /\
   bsat bnv_q bnv_b1 = true /\ bsat bnv_q bnv_b2 = false /\ bsat bnv_q bnv_b4 = false /\
   bsearch (brun bnv_hist) [cnd "a.y" OpEq (OStr "p"); cnd "b.x" OpLt (OInt 9)]%string = BOk [1; 2].
@@ -756,10 +967,14 @@ Proof.
   { assert (NK : forall k, In k ["block.height"; "b.x"]%string -> BNumKey bnv_hist k).
     { intros k [<-|[<-|[]]] b v [<-|[<-|[<-|[<-|[<-|[]]]]]] O I; try discriminate O;
         vm_compute in I; apply bnv_numok; simpl; tauto. }
-    intros c [<-|[<-|[<-|[<-|[<-|[<-|[]]]]]]]; unfold bwf_cond; simpl;
+    intros c [<-|[<-|[<-|[<-|[<-|[<-|[<-|[]]]]]]]]; unfold bwf_cond; simpl;
       try discriminate; try reflexivity; apply NK; simpl; tauto. }
   split.
-  { vm_compute. repeat constructor; simpl; intuition discriminate. }
+  { intros k I. vm_compute in I. destruct I as [<-|[<-|[]]].
+    - right. exists (cnd "b.x" OpGt (OInt 5)), (cnd "b.x" OpLe (OInt 7)).
+      split; [reflexivity|]. split; [reflexivity|].
+      intros b [<-|[<-|[<-|[<-|[<-|[]]]]]] O; try discriminate O; vm_compute; lia.
+    - left. eexists. reflexivity. }
   vm_compute. auto 10.
 Qed.
 
